@@ -222,7 +222,9 @@ Section LookupsProofs.
     a_deliver_api : forall x, In x (l_inflight s) -> tq_phase x = PDeliver -> lc_api c <> ABootstrap;
     a_no_panic : l_panic s = true -> is_getput c = true /\ lc_variant c = Pinned;
     a_ann_done : is_announce c = true -> opc_eqb (l_owner s) ODone && l_handle s = true -> l_peers_closed s = true;
-    a_aclosed : l_aclosed s = true -> l_stopping s = true
+    a_aclosed : l_aclosed s = true -> l_stopping s = true;
+    a_seeded : seeded c s = false -> l_inflight s = [];
+    a_handle_ok : is_announce c = true -> seeded c s = true -> l_handle s = true
   }.
 
   Lemma accept_panic_pinned y : accept y = AccPanic -> lc_variant c = Pinned.
@@ -235,7 +237,7 @@ Section LookupsProofs.
     unfold Lookups.enabled in En; apply andb_prop in En; destruct En as [NP En]; apply negb_true_iff in NP;
     boolhyps.
 
-  Ltac own := match goal with H : l_owner _ = _ |- _ => rewrite H in *; unfold todo_ok in *; cbn in *; rewrite ?orb_true_r, ?orb_false_r in * end.
+  Ltac own := match goal with H : l_owner _ = _ |- _ => unfold seeded in *; rewrite H in *; unfold todo_ok in *; cbn in *; rewrite ?orb_true_r, ?orb_false_r in * end.
 
   Ltac rwapi := repeat match goal with H : lc_api _ = _ |- _ => rewrite !H end.
 
@@ -246,7 +248,9 @@ Section LookupsProofs.
     try solve [ intros; congruence ];
     try solve [ intros; eauto ];
     try solve [ intros; tauto ];
-    try solve [ intros; intuition (try congruence; try discriminate) ].
+    try solve [ intros; intuition (try congruence; try discriminate) ];
+    try solve [ unfold seeded in *; cbn; repeat (ow; cbn); destruct (lc_sn c); cbn in *; intros; try discriminate; try assumption;
+                try reflexivity; try tauto; eauto ].
 
   Lemma after_query_deliver r : after_query r = PDeliver -> lc_api c <> ABootstrap.
   Proof.
@@ -263,17 +267,20 @@ Section LookupsProofs.
   Lemma In_split3 {A} (l1 l2 : list A) x y : In y (l1 ++ x :: l2) <-> In y l1 \/ y = x \/ In y l2.
   Proof. rewrite in_app_iff. simpl. intuition. Qed.
 
+  Lemma seeded_owner s s' : l_owner s' = l_owner s -> seeded c s' = seeded c s.
+  Proof. intros E. unfold seeded. rewrite E. reflexivity. Qed.
+
   Lemma invA_init : LInvA (l_init c).
   Proof. constructor; afin. Qed.
 
   Lemma invA_step s l : LInvA s -> enabled s l = true -> LInvA (step s l).
   Proof.
-    intros [Ist Iss Isp Iex Iun Ips Itd Ihd Iapi Ipc Ias Ida Inp Iad Iac] En.
+    intros [Ist Iss Isp Iex Iun Ips Itd Ihd Iapi Ipc Ias Ida Inp Iad Iac Isd Iho] En.
     enab En. unfold is_announce, is_getput in *. destruct l; boolhyps; unfold Lookups.step.
     - (* OStartTrav *) own. constructor; afin.
     - (* OGetNodes *)
       own. unfold stops_ok in *.
-      destruct (lc_sn c); [destruct (is_announce c) eqn:?|destruct (is_announce c || repaired c) eqn:Hs..];
+      destruct (lc_sn c) eqn:Sn; [destruct (is_announce c) eqn:?|destruct (is_announce c || repaired c) eqn:Hs..];
         constructor; afin; unfold stops_ok; rewrite ?Hs; afin.
     - (* OStalled *)
       own. destruct (lc_api c) eqn:Api; try destruct (l_got s); constructor; afin.
@@ -287,7 +294,8 @@ Section LookupsProofs.
     - (* OSendsDone *) own. destruct (lc_api c) eqn:Api; cbn in *; try discriminate; constructor; afin; try (rewrite H0; reflexivity).
     - (* OCloseP *) own. constructor; afin.
     - (* TIssue *) constructor; afin.
-      intros x I P. apply in_app_or in I. destruct I as [I|[<-|[]]]; [eauto|discriminate].
+      + intros x I P. apply in_app_or in I. destruct I as [I|[<-|[]]]; [eauto|discriminate].
+      + intros X. unfold seeded in *. cbn in X. rewrite H0 in X. discriminate.
     - (* TLoopExit *) constructor; afin.
     - (* TStopWait *) constructor; afin.
     - (* QReturn *)
@@ -296,17 +304,20 @@ Section LookupsProofs.
       { destruct (l_stopped s); [|reflexivity]. destruct (Isp eq_refl) as [_ E]. rewrite E in A. destruct l1; discriminate. }
       assert (l_started s = true) as Hst.
       { destruct (l_started s); [reflexivity|]. rewrite (Iun eq_refl) in A. destruct l1; discriminate. }
+      assert (seeded c s = true) as Hseed.
+      { destruct (seeded c s) eqn:Sd0; [reflexivity|]. rewrite (Isd eq_refl) in A. destruct l1; discriminate. }
       assert (G : LInvA (set_inflight s (upd_tq q (tq_returned (after_query r) r) (l_inflight s)))).
       { constructor; afin; rewrite ?U.
         - intros x0 I Ph. apply In_split3 in I. destruct I as [I|[->|I]].
           + apply (Ida x0); [rewrite A; apply In_split3; tauto|assumption].
           + simpl in Ph. apply (after_query_deliver r Ph).
-          + apply (Ida x0); [rewrite A; apply In_split3; tauto|assumption]. }
+          + apply (Ida x0); [rewrite A; apply In_split3; tauto|assumption].
+        - intros X. change (seeded c s = false) in X. congruence. }
       destruct (query_panics r) eqn:QP.
       + pose proof (query_panics_pinned r QP) as [G1 G2].
-        destruct G as [Jst Jss Jsp Jex Jun Jps Jtd Jhd Japi Jpc Jas Jda Jnp Jad Jac].
+        destruct G as [Jst Jss Jsp Jex Jun Jps Jtd Jhd Japi Jpc Jas Jda Jnp Jad Jac Jsd Jho].
         destruct r as [y|]; constructor; cbn in *; try assumption; intros; split; assumption.
-      + destruct G as [Jst Jss Jsp Jex Jun Jps Jtd Jhd Japi Jpc Jas Jda Jnp Jad Jac].
+      + destruct G as [Jst Jss Jsp Jex Jun Jps Jtd Jhd Japi Jpc Jas Jda Jnp Jad Jac Jsd Jho].
         destruct r as [y|]; constructor; cbn in *; assumption.
     - (* QDeliver *)
       destruct (tq_at_split _ _ _ H) as (x & l1 & l2 & A & _ & P & _ & U & _ & R & _).
@@ -314,14 +325,17 @@ Section LookupsProofs.
       { destruct (l_stopped s); [|reflexivity]. destruct (Isp eq_refl) as [_ E]. rewrite E in A. destruct l1; discriminate. }
       assert (l_started s = true) as Hst.
       { destruct (l_started s); [reflexivity|]. rewrite (Iun eq_refl) in A. destruct l1; discriminate. }
+      assert (seeded c s = true) as Hseed.
+      { destruct (seeded c s) eqn:Sd0; [reflexivity|]. rewrite (Isd eq_refl) in A. destruct l1; discriminate. }
       assert (G : LInvA (set_inflight s (upd_tq q (tq_set_phase PReturn) (l_inflight s)))).
       { constructor; afin; rewrite ?U.
         - intros x0 I Ph. apply In_split3 in I. destruct I as [I|[->|I]].
           + apply (Ida x0); [rewrite A; apply In_split3; tauto|assumption].
           + simpl in Ph. discriminate.
-          + apply (Ida x0); [rewrite A; apply In_split3; tauto|assumption]. }
+          + apply (Ida x0); [rewrite A; apply In_split3; tauto|assumption].
+        - intros X. change (seeded c s = false) in X. congruence. }
       unfold Lookups.deliver. rewrite R. destruct (tq_res x) as [y|]; [|exact G].
-      destruct G as [Jst Jss Jsp Jex Jun Jps Jtd Jhd Japi Jpc Jas Jda Jnp Jad Jac].
+      destruct G as [Jst Jss Jsp Jex Jun Jps Jtd Jhd Japi Jpc Jas Jda Jnp Jad Jac Jsd Jho].
       destruct (lc_api c) eqn:Api.
       + constructor; cbn in *; rwapi; assumption.
       + destruct (l_peers_closed s) eqn:PC.
@@ -331,6 +345,7 @@ Section LookupsProofs.
         destruct (accept y); try (constructor; cbn in *; rwapi; assumption).
         constructor; cbn in *; rwapi; rewrite ?H0 in *; cbn in *; try assumption; try reflexivity;
             try (intros; discriminate); try tauto.
+        all: try (intros; unfold seeded in *; cbn in *; rewrite ?H0 in *; cbn in *; congruence).
       + destruct (accept y); constructor; cbn in *; rwapi; assumption.
     - (* QAbandon *)
       destruct (tq_at_split _ _ _ H) as (x & l1 & l2 & A & _ & P & _ & U & _).
@@ -338,21 +353,27 @@ Section LookupsProofs.
       { destruct (l_stopped s); [|reflexivity]. destruct (Isp eq_refl) as [_ E]. rewrite E in A. destruct l1; discriminate. }
       assert (l_started s = true) as Hst.
       { destruct (l_started s); [reflexivity|]. rewrite (Iun eq_refl) in A. destruct l1; discriminate. }
+      assert (seeded c s = true) as Hseed.
+      { destruct (seeded c s) eqn:Sd0; [reflexivity|]. rewrite (Isd eq_refl) in A. destruct l1; discriminate. }
       constructor; afin; rewrite ?U.
       + intros x0 I Ph. apply In_split3 in I. destruct I as [I|[->|I]].
         * apply (Ida x0); [rewrite A; apply In_split3; tauto|assumption].
         * simpl in Ph. discriminate.
         * apply (Ida x0); [rewrite A; apply In_split3; tauto|assumption].
+      + intros X. change (seeded c s = false) in X. congruence.
     - (* QFinish *)
       destruct (tq_at_split _ _ _ En) as (x & l1 & l2 & A & _ & P & _ & _ & D & _).
       assert (l_stopped s = false) as Hsp.
       { destruct (l_stopped s); [|reflexivity]. destruct (Isp eq_refl) as [_ E]. rewrite E in A. destruct l1; discriminate. }
       assert (l_started s = true) as Hst.
       { destruct (l_started s); [reflexivity|]. rewrite (Iun eq_refl) in A. destruct l1; discriminate. }
+      assert (seeded c s = true) as Hseed.
+      { destruct (seeded c s) eqn:Sd0; [reflexivity|]. rewrite (Isd eq_refl) in A. destruct l1; discriminate. }
       assert (G : LInvA (set_inflight s (del_tq q (l_inflight s)))).
       { constructor; afin; rewrite ?D.
-        - intros x0 I Ph. apply (Ida x0); [|assumption]. rewrite A. apply in_app_or in I. apply In_split3. tauto. }
-      destruct G as [Jst Jss Jsp Jex Jun Jps Jtd Jhd Japi Jpc Jas Jda Jnp Jad Jac].
+        - intros x0 I Ph. apply (Ida x0); [|assumption]. rewrite A. apply in_app_or in I. apply In_split3. tauto.
+        - intros X. change (seeded c s = false) in X. congruence. }
+      destruct G as [Jst Jss Jsp Jex Jun Jps Jtd Jhd Japi Jpc Jas Jda Jnp Jad Jac Jsd Jho].
       destruct (closest_elem (addr_of s q) (res_of s q)); constructor; cbn in *; assumption.
     - (* ECtx *) constructor; afin.
     - (* EClose *) constructor; afin.
@@ -934,13 +955,14 @@ Section LookupsProofs.
   Record LInvC (s : lstate) : Prop := mkLInvC {
     c_closest : forall e, In e (l_closest s) -> elem_logged s e;
     c_final : forall e, In e (l_final s) -> elem_logged s e;
-    c_final_ann : is_announce c = true -> ann_late (l_owner s) (l_handle s) = true -> l_final s = l_closest s;
+    c_final_ann : is_announce c = true -> l_final s = [] \/ (l_final s = l_closest s /\ l_stopped s = true);
     c_sends : match sends_phase (l_owner s) with
               | 0 => l_sends s = [] /\ l_final s = []
               | 1 => map strip (l_sends s) ++ flat_map keys_of (l_todo s) = flat_map keys_of (l_final s)
               | _ => map strip (l_sends s) = flat_map keys_of (l_final s)
               end;
-    c_put_seq : forall r, In r (l_sends s) -> sr_seq r = (if is_announce c then 0%Z else l_autoseq s)
+    c_put_seq : forall r, In r (l_sends s) -> sr_seq r = (if is_announce c then 0%Z else l_autoseq s);
+    c_final_late : is_announce c = true -> ann_late (l_owner s) (l_handle s) = true -> l_final s = l_closest s
   }.
 
   Lemma elem_logged_mono s s' e :
@@ -948,15 +970,18 @@ Section LookupsProofs.
   Proof. intros Sub (q & r & I & H). exists q, r. split; [apply Sub; assumption|assumption]. Qed.
 
   Lemma invC_init : LInvC (l_init c).
-  Proof. constructor; simpl; intros; try contradiction; try reflexivity; try (split; reflexivity); try discriminate. Qed.
+  Proof. constructor; simpl; intros; try contradiction; try reflexivity; try (split; reflexivity); try discriminate; try (left; reflexivity). Qed.
 
   Lemma invC_frame s s' :
     l_closest s' = l_closest s -> l_final s' = l_final s -> l_log s' = l_log s -> l_owner s' = l_owner s ->
     l_handle s' = l_handle s -> l_sends s' = l_sends s -> l_todo s' = l_todo s -> l_autoseq s' = l_autoseq s ->
+    (l_stopped s' = l_stopped s \/ l_stopped s' = true) ->
     LInvC s -> LInvC s'.
   Proof.
-    intros E1 E2 E3 E4 E5 E6 E7 E8 [C1 C2 C3 C4 C5].
-    constructor; unfold elem_logged in *; rewrite ?E1, ?E2, ?E3, ?E4, ?E5, ?E6, ?E7, ?E8; assumption.
+    intros E1 E2 E3 E4 E5 E6 E7 E8 E9 [C1 C2 C3 C4 C5 C6].
+    constructor; unfold elem_logged in *; rewrite ?E1, ?E2, ?E3, ?E4, ?E5, ?E6, ?E7, ?E8; try assumption.
+    intros An. destruct (C3 An) as [L|[L R]]; [left; assumption|right]. split; [assumption|].
+    destruct E9 as [-> | ->]; [assumption|reflexivity].
   Qed.
 
   Lemma closest_elem_logged s q x e :
@@ -979,6 +1004,8 @@ Section LookupsProofs.
     cbn; try assumption; try (intros _ X; discriminate); try (split; assumption);
     try (match goal with Api : lc_api _ = _ |- is_announce _ = true -> _ =>
            let X := fresh in intros X; unfold is_announce in X; rewrite Api in X; discriminate end);
+    try (intros _; left; first [assumption | match goal with C : _ /\ l_final _ = [] |- _ => exact (proj2 C) end]);
+    try (intros _; right; split; [reflexivity|assumption]);
     try (match goal with S0 : l_sends _ = [] |- forall r, In r _ -> _ =>
            let r := fresh in let I := fresh in intros r I; cbn in I; rewrite S0 in I; destruct I end);
     try (match goal with S0 : l_sends _ = [], F0 : l_final _ = [] |- _ => rewrite ?S0, ?F0; reflexivity end).
@@ -995,9 +1022,9 @@ Section LookupsProofs.
   Proof.
     intros IA IB IC En.
     destruct l;
-      try (apply (invC_frame s); [..|assumption]; unfold Lookups.step; cbn; destr_all; fail).
+      try (apply (invC_frame s); [..|assumption]; unfold Lookups.step; cbn; destr_all; try (left; reflexivity); try (right; reflexivity); fail).
     all: pose proof En as En'; unfold Lookups.enabled in En'; apply andb_prop in En'; destruct En' as [_ T]; boolhyps.
-    all: destruct IC as [C1 C2 C3 C4 C5].
+    all: destruct IC as [C1 C2 C3 C4 C5 C6].
     - (* OStartTrav *)
       unfold Lookups.step. rwown. constructor; cbn; try assumption; try (intros _ X; discriminate).
     - (* OGetNodes *)
@@ -1010,7 +1037,7 @@ Section LookupsProofs.
       unfold Lookups.step. rwown. cbn in C4.
       destruct (lc_api c); try destruct (l_got s); constructor; cfin.
     - (* OCtx *)
-      unfold Lookups.step. rwown. cbn in C4. constructor; cbn; try assumption; try (intros _ X; discriminate).
+      unfold Lookups.step. rwown. cbn in C4. constructor; cfin.
     - (* OStopStep *)
       unfold Lookups.step. rwown. cbn in C4. destruct C4 as [S0 F0].
       destruct (lc_api c) eqn:Api; [destruct (l_err s)|..]; constructor; cfin.
@@ -1029,35 +1056,35 @@ Section LookupsProofs.
         destruct I as [<-|[]]. reflexivity.
     - (* OSendsDone *)
       unfold Lookups.step. rwown. cbn in C4. rewrite H0 in C4. simpl in C4. rewrite app_nil_r in C4.
-      destruct (is_announce c) eqn:An; constructor; cbn; rewrite ?An; try assumption;
-        try (intros X _; apply C3; [assumption|reflexivity]); try (intros X; congruence).
+      destruct (is_announce c) eqn:An; constructor; cbn; rewrite ?An; try assumption; try (intros X; congruence);
+        try (intros X _; apply C6; [assumption|reflexivity]).
     - (* OCloseP *)
       unfold Lookups.step. rwown. cbn in C4. constructor; cbn; try assumption.
-      intros An _. apply C3; [assumption|reflexivity].
+      intros An _. apply C6; [assumption|reflexivity].
     - (* QReturn *)
       assert (Sub : forall x, In x (l_log s) -> In x (l_log (step s (QReturn q r)))).
       { intros x I. unfold Lookups.step. destruct (query_panics r), r; cbn; try assumption; apply in_or_app; left; assumption. }
       assert (F : l_closest (step s (QReturn q r)) = l_closest s /\ l_final (step s (QReturn q r)) = l_final s /\
                   l_owner (step s (QReturn q r)) = l_owner s /\ l_handle (step s (QReturn q r)) = l_handle s /\
                   l_sends (step s (QReturn q r)) = l_sends s /\ l_todo (step s (QReturn q r)) = l_todo s /\
-                  l_autoseq (step s (QReturn q r)) = l_autoseq s).
+                  l_autoseq (step s (QReturn q r)) = l_autoseq s /\ l_stopped (step s (QReturn q r)) = l_stopped s).
       { unfold Lookups.step. destruct (query_panics r), r; cbn; repeat split. }
-      destruct F as (F1 & F2 & F3 & F4 & F5 & F6 & F7).
-      constructor; rewrite ?F1, ?F2, ?F3, ?F4, ?F5, ?F6, ?F7; try assumption.
+      destruct F as (F1 & F2 & F3 & F4 & F5 & F6 & F7 & F8).
+      constructor; rewrite ?F1, ?F2, ?F3, ?F4, ?F5, ?F6, ?F7, ?F8; try assumption.
       + intros e I. apply (elem_logged_mono s); [assumption|apply C1; assumption].
       + intros e I. apply (elem_logged_mono s); [assumption|apply C2; assumption].
     - (* QDeliver *)
       destruct (tq_at_split _ _ _ H) as (x & l1 & l2 & A & Eq & P & _ & U & _ & R & Ad).
       unfold Lookups.step, Lookups.deliver. rewrite R.
-      destruct (tq_res x) as [y|]; [|apply (invC_frame s); try reflexivity; constructor; assumption].
+      destruct (tq_res x) as [y|]; [|apply (invC_frame s); try reflexivity; try (left; reflexivity); constructor; assumption].
       destruct (lc_api c) eqn:Api.
-      + apply (invC_frame s); try reflexivity; constructor; assumption.
-      + destruct (l_peers_closed s); apply (invC_frame s); try reflexivity; constructor; assumption.
+      + apply (invC_frame s); try reflexivity; try (left; reflexivity); constructor; assumption.
+      + destruct (l_peers_closed s); apply (invC_frame s); try reflexivity; try (left; reflexivity); constructor; assumption.
       + unfold is_announce in H0. rewrite Api in H0. apply opc_eqb_eq in H0. rewrite H0 in *. cbn in C4.
-        destruct (accept y); try (apply (invC_frame s); try reflexivity; try (cbn; symmetry; assumption); constructor; rewrite ?H0; assumption).
+        destruct (accept y); try (apply (invC_frame s); try reflexivity; try (left; reflexivity); try (cbn; symmetry; assumption); constructor; rewrite ?H0; assumption).
         * constructor; cbn; try assumption; try (intros _ X; discriminate).
       + unfold is_announce in H0. rewrite Api in H0. apply opc_eqb_eq in H0. rewrite H0 in *. cbn in C4. destruct C4 as [S0 F0].
-        destruct (accept y); try (apply (invC_frame s); try reflexivity; constructor; rewrite ?H0; cbn; try assumption; split; assumption).
+        destruct (accept y); try (apply (invC_frame s); try reflexivity; try (left; reflexivity); constructor; rewrite ?H0; cbn; try assumption; split; assumption).
         constructor; cbn; rewrite ?H0; cbn; try assumption; try (split; assumption).
         intros r I. rewrite S0 in I. destruct I.
     - (* QFinish *)
@@ -1065,10 +1092,12 @@ Section LookupsProofs.
       assert (Ix : In x (l_inflight s)) by (rewrite A; apply In_split3; tauto).
       unfold Lookups.step. rewrite R, Ad.
       destruct (closest_elem (tq_addr x) (tq_res x)) as [e|] eqn:CE;
-        [|apply (invC_frame s); try reflexivity; constructor; assumption].
+        [|apply (invC_frame s); try reflexivity; try (left; reflexivity); constructor; assumption].
       pose proof (closest_elem_logged s q x e IB Ix Eq CE) as Le.
       constructor; cbn; try assumption.
       + intros e0 I. destruct (push_incl _ _ _ I) as [->|I']; [assumption|apply C1; assumption].
+      + intros An. destruct (C3 An) as [L|[L Sd]]; [left; assumption|].
+        exfalso. destruct (a_stopped s IA Sd) as [_ E]. rewrite E in A. destruct l1; discriminate.
       + intros An Late. exfalso. pose proof (a_ann_stopped s IA An Late) as Sd.
         destruct (a_stopped s IA Sd) as [_ E]. rewrite E in A. destruct l1; discriminate.
   Qed.
@@ -1120,13 +1149,20 @@ Section LookupsProofs.
     try assumption; intros; try discriminate; try reflexivity; try assumption; try contradiction; try tauto;
     try (match goal with H : In _ [] |- _ => destruct H end).
 
+  Ltac dmore D3 D4 D5 D6 D7 D8 :=
+    try congruence;
+    try (match goal with G : l_got _ = _ |- _ => rewrite G end); try reflexivity;
+    try (rewrite <- (app_nil_r (l_recv _)); first [rewrite (D3 eq_refl eq_refl []) | rewrite (D7 eq_refl eq_refl [])]; reflexivity);
+    try (apply D4; first [assumption|reflexivity]); try (apply D6; first [assumption|reflexivity]);
+    try (apply D8; first [assumption|reflexivity]); try (apply D5; first [assumption|reflexivity]).
+
   Lemma invD_step s l : LInvB s -> LInvD s -> enabled s l = true -> LInvD (step s l).
   Proof.
     intros IB ID En.
     destruct l;
       try (apply (invD_frame s); [..|assumption]; unfold Lookups.step; cbn; destr_all; try (intros x I; exact I); fail).
     all: pose proof En as En'; unfold Lookups.enabled in En'; apply andb_prop in En'; destruct En' as [_ T]; boolhyps.
-    all: destruct ID as [D1 D2 D3 D4 D5 D6 D7 D8 D9].
+    all: pose proof ID as ID0; destruct ID as [D1 D2 D3 D4 D5 D6 D7 D8 D9].
     - (* OStartTrav *)
       unfold Lookups.step. rwown. cbn in *. constructor; cbn; dfin.
     - (* OGetNodes *)
@@ -1136,41 +1172,24 @@ Section LookupsProofs.
     - (* OStalled *)
       unfold Lookups.step. rwown. cbn in *.
       destruct (lc_api c) eqn:Api; try destruct (l_got s) eqn:Got;
-        constructor; cbn; dfin;
-        try (rewrite <- (app_nil_r (l_recv s)); first [apply D3|apply D7]; reflexivity);
-        try (apply D5; assumption).
+        constructor; cbn; dfin; dmore D3 D4 D5 D6 D7 D8.
     - (* OCtx *)
       unfold Lookups.step. rwown. cbn in *.
-      constructor; cbn; dfin;
-        try (rewrite <- (app_nil_r (l_recv s)); first [apply D3|apply D7]; [assumption|reflexivity]);
-        try (apply D5; assumption).
+      destruct (lc_api c) eqn:Api; constructor; cbn; dfin; dmore D3 D4 D5 D6 D7 D8.
     - (* OStopStep *)
       unfold Lookups.step. rwown. cbn in *.
-      destruct (lc_api c) eqn:Api; [destruct (l_err s)|..]; constructor; cbn; dfin;
-        try (apply D4; [assumption|reflexivity]); try (apply D6; [assumption|reflexivity|assumption]);
-        try (apply D8; [assumption|reflexivity]); try (apply D5; assumption).
+      destruct (lc_api c) eqn:Api; [destruct (l_err s)|..]; constructor; cbn; dfin; dmore D3 D4 D5 D6 D7 D8.
     - (* OStoppedStep *)
       unfold Lookups.step. rwown. cbn in *.
-      destruct (lc_api c) eqn:Api; [|destruct (lc_ann c)|..]; constructor; cbn; dfin;
-        try (apply D4; [assumption|reflexivity]); try (apply D6; [assumption|reflexivity|assumption]);
-        try (apply D8; [assumption|reflexivity]); try (apply D5; assumption).
-    - (* OSend *)
-      unfold Lookups.step. rwown. cbn in *. destruct (l_todo s); [discriminate|].
-      constructor; cbn; rewrite ?H; cbn; dfin;
-        try (apply D4; [assumption|reflexivity]); try (apply D6; [assumption|reflexivity|assumption]);
-        try (apply D8; [assumption|reflexivity]); try (apply D5; assumption).
+      destruct (lc_api c) eqn:Api; [|destruct (lc_ann c)|..]; constructor; cbn; dfin; dmore D3 D4 D5 D6 D7 D8.
     - (* OSendsDone *)
-      unfold Lookups.step. rwown. cbn in *.
-      destruct (is_announce c); constructor; cbn; dfin;
-        try (apply D4; [assumption|reflexivity]); try (apply D6; [assumption|reflexivity|assumption]);
-        try (apply D8; [assumption|reflexivity]); try (apply D5; assumption).
+      unfold Lookups.step. rwown. cbn in *. unfold is_announce.
+      destruct (lc_api c) eqn:Api; constructor; cbn; dfin; dmore D3 D4 D5 D6 D7 D8.
     - (* OCloseP *)
       unfold Lookups.step. rwown. cbn in *.
-      constructor; cbn; dfin;
-        try (apply D4; [assumption|reflexivity]); try (apply D6; [assumption|reflexivity|assumption]);
-        try (apply D8; [assumption|reflexivity]); try (apply D5; assumption).
+      destruct (lc_api c) eqn:Api; constructor; cbn; dfin; dmore D3 D4 D5 D6 D7 D8.
     - (* QReturn *)
-      apply (invD_frame s); try (unfold Lookups.step; destruct (query_panics r), r; reflexivity); [|constructor; assumption].
+      apply (invD_frame s); try (unfold Lookups.step; destruct (query_panics r), r; reflexivity); [|exact ID0].
       intros x I. unfold Lookups.step. destruct (query_panics r), r; cbn; try assumption; apply in_or_app; left; assumption.
     - (* QDeliver *)
       destruct (tq_at_split _ _ _ H) as (x & l1 & l2 & A & Eq & P & _ & U & _ & R & Ad).
@@ -1179,19 +1198,20 @@ Section LookupsProofs.
       pose proof (b_res s IB x y Ix Ry) as Ly.
       unfold Lookups.step, Lookups.deliver. rewrite R, Ry.
       destruct (lc_api c) eqn:Api.
-      + apply (invD_frame s); try reflexivity; [tauto|constructor; assumption].
-      + destruct (l_peers_closed s); apply (invD_frame s); try reflexivity; try tauto; constructor; assumption.
+      + apply (invD_frame s); try reflexivity; [tauto|exact ID0].
+      + destruct (l_peers_closed s); apply (invD_frame s); try reflexivity; try tauto; exact ID0.
       + (* Get *)
         unfold is_announce in H0. rewrite Api in H0. apply opc_eqb_eq in H0.
         assert (Hlog : forall it, In it (l_recv s ++ [gr_item y]) ->
                         exists q0 a r, In (q0, a, r) (l_log s) /\ gr_item r = it /\ gr_has_r r = true).
         { intros it I. apply in_app_or in I. destruct I as [I|[<-|[]]]; [apply D9; assumption|].
           exists (tq_id x), (tq_addr x), y. repeat split; assumption. }
-        destruct (accept y) as [|g|g|] eqn:Acc; try (apply (invD_frame s); try reflexivity; [tauto|constructor; assumption]).
+        destruct (accept y) as [|g|g|] eqn:Acc; try (apply (invD_frame s); try reflexivity; [tauto|exact ID0]).
         * (* immutable: ends the wait *)
           constructor; cbn; intros; try discriminate; try assumption; try reflexivity; try congruence.
           -- rewrite (D3 eq_refl H0 [gr_item y]). cbn [Bep44.client_get]. unfold Lookups.accept in Acc. rewrite Acc. reflexivity.
           -- split; [intros _; discriminate|intros _; reflexivity].
+          -- apply Hlog. assumption.
         * (* mutable: running maximum *)
           constructor; cbn; rewrite ?H0; intros; try discriminate; try assumption; try congruence.
           -- apply D2. assumption.
@@ -1199,25 +1219,312 @@ Section LookupsProofs.
              cbn [Bep44.client_get]. unfold Lookups.accept in Acc. rewrite Acc. reflexivity.
           -- split; [intros _|intros _; reflexivity].
              destruct (l_cur s) as [cur|]; [destruct (Z.leb (res_seq cur) (res_seq g))|]; discriminate.
+          -- apply Hlog. assumption.
       + (* Put *)
         unfold is_announce in H0. rewrite Api in H0. apply opc_eqb_eq in H0.
         assert (Hlog : forall it, In it (l_recv s ++ [gr_item y]) ->
                         exists q0 a r, In (q0, a, r) (l_log s) /\ gr_item r = it /\ gr_has_r r = true).
         { intros it I. apply in_app_or in I. destruct I as [I|[<-|[]]]; [apply D9; assumption|].
           exists (tq_id x), (tq_addr x), y. repeat split; assumption. }
-        destruct (accept y) as [|g|g|] eqn:Acc; try (apply (invD_frame s); try reflexivity; [tauto|constructor; assumption]).
+        destruct (accept y) as [|g|g|] eqn:Acc; try (apply (invD_frame s); try reflexivity; [tauto|exact ID0]).
         * constructor; cbn; rewrite ?H0; intros; try discriminate; try assumption; try congruence.
           -- apply D2. assumption.
           -- rewrite <- app_assoc. simpl. rewrite (D7 eq_refl H0 (gr_item y :: rest)).
              cbn [Bep44.client_autoseq]. unfold Lookups.accept in Acc. rewrite Acc. reflexivity.
+          -- apply Hlog. assumption.
         * constructor; cbn; rewrite ?H0; intros; try discriminate; try assumption; try congruence.
           -- apply D2. assumption.
           -- rewrite <- app_assoc. simpl. rewrite (D7 eq_refl H0 (gr_item y :: rest)).
              cbn [Bep44.client_autoseq]. unfold Lookups.accept in Acc. rewrite Acc. reflexivity.
+          -- apply Hlog. assumption.
   Qed.
 
   Theorem invD_reachable s : reachable s -> LInvD s.
   Proof.
     apply reachable_ind; [apply invD_init|]. intros s0 l R I E. apply invD_step; [apply invB_reachable|..]; assumption.
   Qed.
+
+  (* ================================================================ C16 *)
+  Lemma in_prefix_app {A} (x : A) (l1 l2 l : list A) : l1 ++ l2 = l -> In x l1 -> In x l.
+  Proof. intros <- I. apply in_or_app. left. assumption. Qed.
+
+  (* every announce_peer query issued: destination, token, infohash, port / implied flag *)
+  Theorem announce_tokens s sr :
+    reachable s -> is_announce c = true -> In sr (l_sends s) ->
+    l_stopped s = true /\ l_final s = l_closest s /\
+    exists e, In e (l_closest s) /\
+      sr_dest sr = e_addr e /\ sr_token sr = e_data e /\ sr_ih sr = lc_target c /\
+      lc_ann c = Some (sr_port sr, sr_implied sr) /\
+      exists q r, In (q, sr_dest sr, r) (l_log s) /\ gr_has_r r = true /\ gr_id r = e_id e /\
+                  gr_token r = Some (sr_token sr).
+  Proof.
+    intros R An I.
+    destruct (invC_reachable s R) as [C1 C2 C3 C4 C5 C6].
+    assert (Hin : In (strip sr) (flat_map keys_of (l_final s))).
+    { destruct (sends_phase (l_owner s)) as [|[|n]].
+      - destruct C4 as [S0 _]. rewrite S0 in I. destruct I.
+      - apply (in_prefix_app _ _ _ _ C4). apply in_map. assumption.
+      - rewrite <- C4. apply in_map. assumption. }
+    apply in_flat_map in Hin. destruct Hin as (e & Ie & Ik).
+    destruct (C3 An) as [F0|[Fc Sd]]; [rewrite F0 in Ie; destruct Ie|].
+    split; [assumption|]. split; [assumption|].
+    exists e. rewrite <- Fc. split; [assumption|].
+    destruct (C2 e Ie) as (q & r & L & Hr & Hid & _ & Tok). specialize (Tok An).
+    unfold keys_of, announce_rec, is_announce in *. destruct (lc_api c); try discriminate.
+    destruct (lc_ann c) as [[port imp]|]; [|destruct Ik].
+    destruct (Z.eqb port 0 && negb imp); [destruct Ik|]. destruct Ik as [E|[]].
+    unfold strip in E. simpl in E. injection E as E1 E2 E3 E4 E5.
+    repeat split; try congruence.
+    exists q, r. rewrite <- E1, <- E2. repeat split; assumption.
+  Qed.
+
+  Lemma keys_of_announce port imp l :
+    lc_api c = AAnnounce -> lc_ann c = Some (port, imp) -> (Z.eqb port 0 && negb imp) = false ->
+    flat_map keys_of l = map (fun e => (e_addr e, e_data e, lc_target c, port, imp)) l.
+  Proof.
+    intros A B C. induction l as [|e l IH]; simpl; [reflexivity|]. rewrite IH.
+    unfold keys_of, announce_rec. rewrite A, B, C. reflexivity.
+  Qed.
+
+  Lemma keys_of_silent l : lc_api c = AAnnounce -> announcing c = false -> flat_map keys_of l = [].
+  Proof.
+    intros A NA. unfold announcing in NA. induction l as [|e l IH]; simpl; [reflexivity|]. rewrite IH.
+    unfold keys_of, announce_rec. rewrite A. destruct (lc_ann c) as [[port imp]|]; [|reflexivity].
+    apply negb_false_iff in NA. rewrite NA. reflexivity.
+  Qed.
+
+  (* announcing enabled and the announce finished: exactly one announce_peer per member of the final
+     closest set, in its order, with that member's address and data *)
+  Theorem announce_all_closest s :
+    reachable s -> is_announce c = true -> l_handle s = true -> owner_done s = true ->
+    l_final s = l_closest s /\ l_stopped s = true /\
+    map strip (l_sends s) = flat_map keys_of (l_closest s) /\
+    (forall port imp, lc_ann c = Some (port, imp) -> (Z.eqb port 0 && negb imp) = false ->
+       map strip (l_sends s) = map (fun e => (e_addr e, e_data e, lc_target c, port, imp)) (l_closest s)) /\
+    (announcing c = false -> l_sends s = []).
+  Proof.
+    intros R An Hd Dn. unfold owner_done in Dn. apply opc_eqb_eq in Dn.
+    pose proof (invA_reachable s R) as IA.
+    destruct (invC_reachable s R) as [C1 C2 C3 C4 C5 C6].
+    rewrite Dn in C4. simpl in C4.
+    assert (Sd : l_stopped s = true).
+    { apply (a_ann_stopped s IA An). unfold ann_late. rewrite Dn, Hd. reflexivity. }
+    assert (Fc : l_final s = l_closest s).
+    { apply C6; [assumption|]. unfold ann_late. rewrite Dn, Hd. reflexivity. }
+    rewrite Fc in C4. repeat split; try assumption.
+    - intros port imp Ann NZ. rewrite C4. apply keys_of_announce; try assumption.
+      unfold is_announce in An. destruct (lc_api c); try discriminate. reflexivity.
+    - intros NA. rewrite keys_of_silent in C4; [|unfold is_announce in An; destruct (lc_api c); try discriminate; reflexivity|assumption].
+      destruct (l_sends s); [reflexivity|discriminate].
+  Qed.
+
+  (* delivery on the Peers channel *)
+  Theorem announce_delivery s :
+    reachable s -> is_announce c = true ->
+    (* what the consumer received is a response of this traversal, with the responder's address and id *)
+    (forall q a i p, In (q, a, i, p) (l_delivered s) ->
+       exists r, In (q, a, r) (l_log s) /\ gr_has_r r = true /\ i = gr_id r /\ p = gr_payload r) /\
+    (* never twice *)
+    NoDup (del_ids s) /\
+    (* a response is on its way to the consumer, delivered, or (D10 repair only, while stopping) given up *)
+    (forall q a r, In (q, a, r) (l_log s) -> gr_has_r r = true ->
+       (exists x, In x (l_inflight s) /\ tq_id x = q /\ tq_phase x = PDeliver) \/
+       In (q, a, gr_id r, gr_payload r) (l_delivered s) \/ In q (l_abandoned s)) /\
+    (lc_abandon_ctx c = false -> l_abandoned s = []) /\
+    (* once the traversal is stopped every response has been dealt with *)
+    (l_stopped s = true -> forall q a r, In (q, a, r) (l_log s) -> gr_has_r r = true ->
+       In (q, a, gr_id r, gr_payload r) (l_delivered s) \/ In q (l_abandoned s)).
+  Proof.
+    intros R An. pose proof (invA_reachable s R) as IA. pose proof (invB_reachable s R) as IB.
+    split; [exact (b_delivered s IB)|]. split; [exact (b_del_nodup s IB)|]. split; [exact (b_status s IB An)|].
+    split.
+    - intros NA. destruct (l_abandoned s) eqn:E; [reflexivity|].
+      assert (l_abandoned s <> []) as N by (rewrite E; discriminate).
+      rewrite (b_abandon s IB An N) in NA. discriminate.
+    - intros Sd q a r I Hr. destruct (b_status s IB An q a r I Hr) as [(x & Ix & _)|H]; [|exact H].
+      destruct (a_stopped s IA Sd) as [_ E]. rewrite E in Ix. destruct Ix.
+  Qed.
+
+  (* closing of the Peers channel *)
+  Theorem announce_close s :
+    reachable s -> is_announce c = true ->
+    l_panic s = false /\                                           (* no send on the closed channel, ever *)
+    (l_peers_closed s = true ->
+       owner_done s = true /\ l_stopped s = true /\ l_inflight s = [] /\ l_todo s = [] /\
+       (forall q, enabled s (QDeliver q) = false)) /\
+    (l_handle s = true -> owner_done s = true -> l_peers_closed s = true).
+  Proof.
+    intros R An. pose proof (invA_reachable s R) as IA. split; [|split].
+    - destruct (l_panic s) eqn:P; [|reflexivity]. destruct (a_no_panic s IA P) as [G _].
+      unfold is_announce, is_getput in *. destruct (lc_api c); discriminate.
+    - intros PC. destruct (a_peers_closed s IA PC) as (D & Sd & _). destruct (a_stopped s IA Sd) as [_ Inf].
+      repeat split; try assumption.
+      + pose proof (a_todo s IA) as T. unfold todo_ok in T. apply opc_eqb_eq in D. rewrite D in T. simpl in T.
+        rewrite orb_false_r in T. apply nil_b_eq. assumption.
+      + intros q. unfold Lookups.enabled, tq_at. rewrite Inf. simpl. rewrite andb_false_r. reflexivity.
+    - intros Hd D. apply (a_ann_done s IA An). unfold owner_done in D. rewrite D, Hd. reflexivity.
+  Qed.
+
+  (* liveness of the announce: with the consumer reading (or the D10 repair and the announce stopping)
+     every maximal run of internal events closes the Peers channel; a run exists and none is infinite *)
+  Theorem announce_finishes s :
+    reachable s -> is_announce c = true -> l_handle s = true ->
+    (l_reads s = true \/ (lc_abandon_ctx c = true /\ l_stopping s = true)) ->
+    exists ls, forallb internal ls = true /\ path_ok s ls = true /\ length ls <= lmu s /\
+               l_peers_closed (exec s ls) = true /\ all_done (exec s ls) = true.
+  Proof.
+    intros R An Hd Lv.
+    assert (live s) as L by (split; [unfold stops_ok; rewrite An; reflexivity|intros _; exact Lv]).
+    destruct (lookup_ends s R L) as (ls & I & _ & P & D & Len).
+    exists ls. repeat split; try assumption.
+    assert (reachable (exec s ls)) as R' by (apply reachable_exec; assumption).
+    pose proof (invA_reachable _ R') as IA'.
+    apply (a_ann_done _ IA' An).
+    unfold Lookups.all_done in D. repeat (apply andb_prop in D; destruct D as [D ?]).
+    unfold owner_done in D. rewrite D. simpl.
+    (* the handle is never taken back *)
+    assert (forall ls s0, l_handle s0 = true -> l_handle (exec s0 ls) = true) as HM.
+    { clear. induction ls as [|l ls IH]; intros s0 H0; simpl; [assumption|]. apply IH.
+      unfold Lookups.step_en. destruct (enabled s0 l); [|assumption].
+      destruct l; unfold Lookups.step, Lookups.deliver; cbn; try assumption; destr_all; try assumption. }
+    apply HM. assumption.
+  Qed.
+
+  (* ================================================================ C12, client side *)
+  Theorem get_result_is_client_get s :
+    reachable s -> lc_api c = AGet -> owner_done s = true ->
+    cget (l_recv s) None = COResult (l_cur s) /\
+    (l_err s = None -> l_cur s <> None) /\
+    (forall it, In it (l_recv s) -> exists q a r, In (q, a, r) (l_log s) /\ gr_item r = it /\ gr_has_r r = true).
+  Proof.
+    intros R Api D. destruct (invD_reachable s R) as [D1 D2 D3 D4 D5 D6 D7 D8 D9].
+    unfold owner_done in D. apply opc_eqb_eq in D.
+    split; [apply D4; [assumption|rewrite D; reflexivity]|]. split; [|assumption].
+    intros E. apply (D5 Api). apply D6; [assumption|rewrite D; reflexivity|assumption].
+  Qed.
+
+  Theorem put_seq_is_client_autoseq s :
+    reachable s -> lc_api c = APut -> owner_done s = true ->
+    cauto (l_recv s) 0%Z = Some (l_autoseq s) /\
+    (forall r, In r (l_sends s) -> sr_seq r = l_autoseq s) /\
+    (forall it, In it (l_recv s) -> exists q a r, In (q, a, r) (l_log s) /\ gr_item r = it /\ gr_has_r r = true).
+  Proof.
+    intros R Api D. destruct (invD_reachable s R) as [D1 D2 D3 D4 D5 D6 D7 D8 D9].
+    destruct (invC_reachable s R) as [C1 C2 C3 C4 C5 C6].
+    unfold owner_done in D. apply opc_eqb_eq in D.
+    split; [apply D8; [assumption|rewrite D; reflexivity]|]. split; [|assumption].
+    intros r I. rewrite (C5 r I). unfold is_announce. rewrite Api. reflexivity.
+  Qed.
+
+  (* the repaired client never dies on a reply *)
+  Theorem repaired_no_panic s : reachable s -> lc_variant c = Repaired -> l_panic s = false.
+  Proof.
+    intros R V. destruct (l_panic s) eqn:P; [|reflexivity].
+    destruct (a_no_panic s (invA_reachable s R) P) as [_ V']. congruence.
+  Qed.
+
+  (* ================================================================ the leak of the pinned tree (D8) is for good *)
+  Lemma leak_forever ls : forall s,
+    opc_eqb (l_owner s) ODone = true -> l_handle s = false -> l_stopping s = false -> l_loop_exited s = false ->
+    let s' := exec s ls in
+    opc_eqb (l_owner s') ODone = true /\ l_stopping s' = false /\ l_loop_exited s' = false.
+  Proof.
+    induction ls as [|l ls IH]; intros s O H St Le; simpl; [repeat split; assumption|].
+    assert (opc_eqb (l_owner (step_en s l)) ODone = true /\ l_handle (step_en s l) = false /\
+            l_stopping (step_en s l) = false /\ l_loop_exited (step_en s l) = false) as (A & B & C & D).
+    { unfold Lookups.step_en. destruct (enabled s l) eqn:E; [|repeat split; assumption].
+      pose proof O as O'. apply opc_eqb_eq in O'.
+      unfold Lookups.enabled in E. apply andb_prop in E. destruct E as [_ E].
+      unfold Lookups.step, Lookups.deliver, is_announce in *.
+      destruct (lc_api c) eqn:Api; destruct l; boolhyps; try congruence; try (rewrite O' in *; discriminate).
+      all: cbn; destr_all; rewrite ?O, ?O', ?H, ?St, ?Le; repeat split; try reflexivity; try assumption. }
+    apply IH; assumption.
+  Qed.
+
+  (* ================================================================ D10: a consumer that stopped reading blocks the announce for good *)
+  Definition blocked_state (s : lstate) : Prop :=
+    is_announce c = true /\ lc_abandon_ctx c = false /\ l_reads s = false /\ l_stopped s = false /\
+    l_peers_closed s = false /\ exists x, In x (l_inflight s) /\ tq_phase x = PDeliver.
+
+  Lemma blocked_step s l : LInvA s -> LInvB s -> blocked_state s -> blocked_state (step_en s l).
+  Proof.
+    intros IA IB (An & Ab & Rd & Sd & Pc & x & Ix & Px).
+    unfold Lookups.step_en. destruct (enabled s l) eqn:E; [|repeat split; try assumption; exists x; tauto].
+    pose proof E as E'. unfold Lookups.enabled in E'. apply andb_prop in E'. destruct E' as [_ E'].
+    assert (K : forall s', l_reads s' = l_reads s -> l_stopped s' = l_stopped s -> l_peers_closed s' = l_peers_closed s ->
+                           (forall y, In y (l_inflight s) -> tq_phase y = PDeliver -> exists y', In y' (l_inflight s') /\ tq_phase y' = PDeliver) ->
+                           blocked_state s').
+    { intros s' E1 E2 E3 E4. repeat split; try congruence. destruct (E4 x Ix Px) as (y' & Iy & Py). exists y'. tauto. }
+    assert (Same : forall s', l_inflight s' = l_inflight s ->
+                   forall y, In y (l_inflight s) -> tq_phase y = PDeliver -> exists y', In y' (l_inflight s') /\ tq_phase y' = PDeliver).
+    { intros s' Ei y Iy Py. exists y. rewrite Ei. tauto. }
+    destruct l; unfold Lookups.step.
+    all: try (apply K; cbn; destr_all; try reflexivity; apply Same; cbn; destr_all; reflexivity).
+    - (* OCloseP: impossible, the owner cannot have passed Stopped *)
+      exfalso. apply opc_eqb_eq in E'. pose proof (a_ann_stopped s IA An) as X. unfold ann_late in X. rewrite E' in X.
+      simpl in X. rewrite ?orb_true_r in X. specialize (X eq_refl). congruence.
+    - (* TIssue *)
+      apply K; cbn; try reflexivity. intros y Iy Py. exists y. split; [apply in_or_app; left; assumption|assumption].
+    - (* TStopWait *)
+      exfalso. boolhyps. rewrite H0 in Ix. destruct Ix.
+    - (* QReturn *)
+      destruct (tq_at_split _ _ _ E') as (z & l1 & l2 & A & Eq & Pz & _ & U & _).
+      apply K; try (destruct (query_panics r), r; reflexivity).
+      intros y Iy Py. exists y. split; [|assumption].
+      assert (In y (l1 ++ tq_returned (after_query r) r z :: l2)) as G.
+      { rewrite A in Iy. apply In_split3 in Iy. apply In_split3. destruct Iy as [?|[->|?]]; try tauto. congruence. }
+      destruct (query_panics r), r; cbn; rewrite U; exact G.
+    - (* QDeliver: disabled, nobody reads *)
+      exfalso. boolhyps. rewrite An, Rd in H0. discriminate.
+    - (* QAbandon: disabled, Stopped cannot come *)
+      exfalso. boolhyps. rewrite An, Ab, Sd in H0. discriminate.
+    - (* QFinish *)
+      destruct (tq_at_split _ _ _ E') as (z & l1 & l2 & A & Eq & Pz & _ & _ & D & _).
+      apply K; try (destruct (closest_elem (addr_of s q) (res_of s q)); reflexivity).
+      intros y Iy Py. exists y. split; [|assumption].
+      assert (In y (l1 ++ l2)) as G.
+      { rewrite A in Iy. apply In_split3 in Iy. apply in_or_app. destruct Iy as [?|[->|?]]; try tauto. congruence. }
+      destruct (closest_elem (addr_of s q) (res_of s q)); cbn; rewrite D; exact G.
+    - (* EConsumerStop *)
+      exfalso. rewrite Rd in E'. discriminate.
+  Qed.
+
+  Theorem blocked_forever ls : forall s, reachable s -> blocked_state s ->
+    l_peers_closed (exec s ls) = false /\ owner_done (exec s ls) = false /\ blocked_state (exec s ls).
+  Proof.
+    induction ls as [|l ls IH]; intros s R B; simpl.
+    - pose proof B as B0. destruct B as (An & _ & _ & Sd & Pc & x & Ix & _). split; [assumption|]. split; [|assumption].
+      pose proof (invA_reachable s R) as IA. destruct (owner_done s) eqn:D; [|reflexivity].
+      (* a returned owner with the handle out would have closed the channel; without a handle the
+         traversal was never seeded, so nothing could be waiting for the consumer *)
+      exfalso. destruct (seeded c s) eqn:Se.
+      + pose proof (a_handle_ok s IA An Se) as Hd.
+        assert (l_peers_closed s = true) by (apply (a_ann_done s IA An); unfold owner_done in D; rewrite D, Hd; reflexivity).
+        congruence.
+      + rewrite (a_seeded s IA Se) in Ix. destruct Ix.
+    - apply IH; [apply reachable_step; assumption|].
+      apply blocked_step; [apply invA_reachable|apply invB_reachable|]; assumption.
+  Qed.
 End LookupsProofs.
+
+(* ==================================================================== the executable container *)
+Lemma lk_insert_incl t e l x : In x (lk_insert t e l) -> x = e \/ In x l.
+Proof.
+  induction l as [|y r IH]; simpl; [intros [<-|[]]; left; reflexivity|].
+  destruct (lk_cmp t e y); simpl.
+  - intros [<-|I]; [left; reflexivity|right; right; assumption].
+  - intros [<-|I]; [left; reflexivity|right; assumption].
+  - intros [<-|I]; [right; left; reflexivity|]. destruct (IH I) as [->|I']; [left; reflexivity|right; right; assumption].
+Qed.
+
+Lemma lk_insert_len t e l : length (lk_insert t e l) <= S (length l).
+Proof. induction l as [|y r IH]; simpl; [lia|]. destruct (lk_cmp t e y); simpl; lia. Qed.
+
+Lemma firstn_In {A} n (l : list A) x : In x (firstn n l) -> In x l.
+Proof. revert l. induction n; intros [|y l]; simpl; try tauto. intros [<-|I]; [left; reflexivity|right; apply IHn; assumption]. Qed.
+
+Lemma lk_push_incl t k l e x : In x (lk_push t k l e) -> x = e \/ In x l.
+Proof. intros I. apply firstn_In in I. apply (lk_insert_incl t e l x I). Qed.
+
+Lemma lk_push_len t k l e : length (lk_push t k l e) <= S (length l).
+Proof. unfold lk_push. rewrite firstn_length. pose proof (lk_insert_len t e l). lia. Qed.
